@@ -202,6 +202,101 @@ theorem aligned_sources_any_order (k : Kind) (st : Stack) (hst : StackOK st) (ba
     have : emin + (es[i] - emin) = es[i] := by ring
     rw [this]
 
+/-- **The SpacingBetweenSlices recorded for a regular source stack is its spacing** (inferred by the strict
+branch of `get_volume_positions` from all source planes before empty ones are removed, or copied from the
+source): planes at `base + (e·sp)·n`, the `e` pairwise different and filling an interval of ≥ 2 integers, in
+any order. -/
+theorem inferred_slice_spacing (rowCos colCos base : V3) (sp : Rat) (hsp : 0 < sp)
+    (hn : dot (normal rowCos colCos) (normal rowCos colCos) = 1) (es : List Int) (emin emax : Int)
+    (hemin : emin ∈ es) (hemax : emax ∈ es) (hb : ∀ e ∈ es, emin ≤ e ∧ e ≤ emax)
+    (hcomplete : ∀ z, emin ≤ z → z ≤ emax → z ∈ es) (hlt : emin < emax) (hnodup : es.Nodup)
+    (srcHint : Option Rat) (hsrc : srcHint = none ∨ srcHint = some sp) :
+    recordedHint srcHint (es.map (linePos (normal rowCos colCos) base sp)) rowCos colCos = .ok (some sp) :=
+  recordedHint_regular rowCos colCos base sp hsp hn es emin emax hemin hemax hb hcomplete hlt hnodup srcHint hsrc
+
+/-- **Clause 1b end to end (array aligned to a regular source stack given in any order, empty planes omitted
+or not)**: the source planes sit at `base + (e·sp)·n` for the multiples `allEs` (pairwise different, an interval of
+≥ 2 integers, ANY order); the planes with list indices `kept` (non-empty, any order) are stored.  The
+segmentation records orientation, pixel spacing and the inferred slice spacing, reads back as a volume, and frame
+`i` lies exactly at the source position of its plane for every row and column; slots are `e − min kept e`. -/
+theorem aligned_sources_roundtrip (rowCos colCos base : V3) (psRow psCol sp : Rat) (hsp : 0 < sp)
+    (hn : dot (normal rowCos colCos) (normal rowCos colCos) = 1) (horth : dot colCos rowCos = 0)
+    (hpr : 0 < psRow) (hpc : 0 < psCol) (allEs : List Int) (emin emax : Int)
+    (hemin : emin ∈ allEs) (hemax : emax ∈ allEs) (hb : ∀ e ∈ allEs, emin ≤ e ∧ e ≤ emax)
+    (hcomplete : ∀ z, emin ≤ z → z ≤ emax → z ∈ allEs) (hlt : emin < emax) (hnodup : allEs.Nodup)
+    (srcHint : Option Rat) (hsrc : srcHint = none ∨ srcHint = some sp)
+    (kept : List Nat) (keptEs : List Int) (hkept : kept.mapM (fun k => allEs[k]?) = some keptEs) (hne : keptEs ≠ [])
+    (rows cols : Int) (hr : 1 ≤ rows) (hc : 1 ≤ cols) :
+    ∃ st, storeAligned rowCos colCos psRow psCol srcHint (allEs.map (linePos (normal rowCos colCos) base sp)) kept = .ok st ∧
+      st.hint = some sp ∧
+      ∃ kmin ∈ keptEs, ∃ kmax ∈ keptEs, (∀ e ∈ keptEs, kmin ≤ e ∧ e ≤ kmax) ∧ ∃ out,
+        getVolumeStack .seg st rows cols true ({} : Request) = .ok out ∧ out.n = kmax - kmin + 1 ∧
+        out.frames = keptEs.zipIdx.map (fun (p : Int × Nat) => (p.2, p.1 - kmin)) ∧
+        ∀ i (hi : i < keptEs.length) (r c : Int),
+          out.aff.apply (keptEs[i] - kmin) r c
+            = add (add (linePos (normal rowCos colCos) base sp keptEs[i]) (smul ((r : Rat) * psRow) colCos))
+                (smul ((c : Rat) * psCol) rowCos) := by
+  have hrec := recordedHint_regular rowCos colCos base sp hsp hn allEs emin emax hemin hemax hb hcomplete hlt hnodup srcHint hsrc
+  have hpos := mapM_getElem?_map (linePos (normal rowCos colCos) base sp) allEs kept keptEs hkept
+  refine ⟨{ rowCos := rowCos, colCos := colCos, psRow := psRow, psCol := psCol, hint := some sp,
+            pos := keptEs.map (linePos (normal rowCos colCos) base sp) }, ?_, rfl, ?_⟩
+  · unfold storeAligned
+    rw [hrec]
+    simp only [hpos]
+  · obtain ⟨kmin, hkmin, kmax, hkmax, hbk, out, hout, hn', _, _, hfr, happ⟩ :=
+      aligned_sources_any_order .seg
+        { rowCos := rowCos, colCos := colCos, psRow := psRow, psCol := psCol, hint := some sp,
+          pos := keptEs.map (linePos (normal rowCos colCos) base sp) }
+        ⟨hn, horth, hpr, hpc⟩ base sp hsp keptEs hne rfl rfl rows cols hr hc
+    exact ⟨kmin, hkmin, kmax, hkmax, hbk, out, hout, hn', hfr, happ⟩
+
+/-- **`Image.get_volume` of a complete stack whose frames come in any order** (strict branch,
+`allow_missing_positions=False`, with or without a SpacingBetweenSlices in the image): frames at
+`base + (e·sp)·n`, the multiples filling an interval of ≥ 2 integers (repetitions allowed): frame `i` goes to slot
+`e_i − min e`, which lies at the frame's own position. -/
+theorem image_stack_reads_back (st : Stack) (hst : StackOK st) (base : V3) (sp : Rat) (hsp : 0 < sp)
+    (es : List Int) (emin emax : Int) (hemin : emin ∈ es) (hemax : emax ∈ es) (hb : ∀ e ∈ es, emin ≤ e ∧ e ≤ emax)
+    (hcomplete : ∀ z, emin ≤ z → z ≤ emax → z ∈ es) (hlt : emin < emax)
+    (hpos : st.pos = es.map (linePos (normal st.rowCos st.colCos) base sp))
+    (hhint : st.hint = none ∨ st.hint = some sp) (rows cols : Int) (hr : 1 ≤ rows) (hc : 1 ≤ cols) :
+    ∃ out, getVolumeStack .image st rows cols false ({} : Request) = .ok out ∧ out.n = emax - emin + 1 ∧
+      out.rows = rows ∧ out.cols = cols ∧
+      out.frames = es.zipIdx.map (fun (p : Int × Nat) => (p.2, p.1 - emin)) ∧
+      ∀ i (hi : i < es.length) (r c : Int),
+        out.aff.apply (es[i] - emin) r c
+          = add (add (linePos (normal st.rowCos st.colCos) base sp es[i]) (smul ((r : Rat) * st.psRow) st.colCos))
+              (smul ((c : Rat) * st.psCol) st.rowCos) := by
+  have hes : es ≠ [] := List.ne_nil_of_mem hemin
+  have hvp := volumePositions_line_strict st.rowCos st.colCos base sp hsp hst.unitN es emin emax hemin hemax hb
+    hcomplete hlt st.hint hhint true (Or.inl rfl)
+  obtain ⟨emin', hemin', emax', hemax', hb', hok, _⟩ :=
+    getVolumeStack_line_gen false .image st hst base sp hsp es hes hpos
+      ⟨emin, hemin, fun e he => (hb e he).1, hvp⟩ rows cols
+  have e1 : emin' = emin := by
+    have := (hb' emin hemin).1; have := (hb emin' hemin').1; omega
+  have e2 : emax' = emax := by
+    have := (hb' emax hemax).2; have := (hb emax' hemax').2; omega
+  subst e1 e2
+  have hN : 1 ≤ emax' - emin' + 1 := by omega
+  have h := hok ({} : Request) 0 _ 0 rows 0 cols (sliceSpec_default _ hN false) (sliceSpec_default rows hr false)
+    (sliceSpec_default cols hc false)
+  refine ⟨_, h, by simp, by simp, by simp, ?_, ?_⟩
+  · simp only [sub_zero]
+    rw [framePositions_all]
+    · rw [List.zipIdx_map, List.map_map]
+      apply List.map_congr_left
+      intro p _
+      rfl
+    · intro v hv
+      obtain ⟨e, he, rfl⟩ := List.mem_map.mp hv
+      have := hb e he
+      omega
+  · intro i hi r c
+    simp only [aff_shift_zero]
+    rw [lineAff_apply]
+    have : emin' + (es[i] - emin') = es[i] := by ring
+    rw [this]
+
 /-! ## 3. Sub-volume requests mean the Python slice (translated helpers T2, T3) -/
 
 /-- **`_standardize_slice_indices` (regenerated from source)**: for one-based numbers, zero-based indices and
@@ -387,6 +482,14 @@ example : ([4, 1, 2] : List Nat) ≠ [] := by decide
 /-- the hypotheses of `aligned_sources_any_order` hold for the stack stored by a volume -/
 example : StackOK (storeStack gLeft [4, 1, 2]) :=
   stackOK_store (by refine ⟨⟨?_, ?_, ?_, ?_, ?_, ?_⟩, ?_, ?_, ?_⟩ <;> norm_num [gLeft, dot, cross]) _
+
+/-- `aligned_sources_roundtrip` / `inferred_slice_spacing`: a shuffled complete source stack, planes 0 and 2 kept -/
+example : ([0, 2] : List Nat).mapM (fun k => ([2, 0, 1, 3] : List Int)[k]?) = some [2, 1] := by decide
+example : ([2, 0, 1, 3] : List Int).Nodup ∧ (∀ z : Int, 0 ≤ z → z ≤ 3 → z ∈ ([2, 0, 1, 3] : List Int)) := by
+  refine ⟨by decide, ?_⟩
+  intro z h0 h3
+  have : z = 0 ∨ z = 1 ∨ z = 2 ∨ z = 3 := by omega
+  rcases this with rfl | rfl | rfl | rfl <;> simp
 
 /-- concrete requests: accepted ones mean the Python slice, the two repaired defects stay repaired -/
 example : stdSliceIndices (some 1) (some 3) 5 false = .ok (0, 2) := by decide
